@@ -277,6 +277,14 @@ inline void watchdog_arm(unsigned seconds) {
 }
 inline void watchdog_disarm() { watchdog_deadline().store(0); }
 
+inline std::string save_failure(const std::string &text, const std::string &msg) {
+  auto &r = rt();
+  char name[512];
+  snprintf(name, sizeof name, "%s/fail-%s-%016llx.txt", r.replay_dir.c_str(), r.sub->name, (unsigned long long)fnv1a(text));
+  write_file(name, "# " + std::string(r.sub->name) + ": " + [&]{ std::string m = msg; for (auto &c : m) if (c == '\n') c = ' '; return m; }() + "\n" + text);
+  return name;
+}
+
 // Execute one case with bookkeeping.  Returns the error message ("" = property held).
 inline std::string execute_case(const Scenario &scn) {
   auto &r = rt(); auto &s = stats();
@@ -286,6 +294,12 @@ inline std::string execute_case(const Scenario &scn) {
   CaseInfo info;
   std::string err;
 #ifdef VERIF_HAVE_TSAN
+  // a report that arrived between two cases (a thread of the previous case still winding down) belongs to the previous case
+  static unsigned tsan_at_prev_end = 0; static std::string prev_text;
+  if (tsan_reports().load() != tsan_at_prev_end && !prev_text.empty()) {
+    std::string p = save_failure(prev_text, "ThreadSanitizer reported a data race right after this case ended (report text is in the worker log)");
+    s.failures.push_back(p); s.failure_msgs.push_back("ThreadSanitizer reported a data race right after this case ended (report text is in the worker log)");
+  }
   unsigned tsan_before = tsan_reports().load();
 #endif
   try {
@@ -298,6 +312,9 @@ inline std::string execute_case(const Scenario &scn) {
 #ifdef VERIF_HAVE_TSAN
   if (err.empty() && tsan_reports().load() != tsan_before)
     err = "ThreadSanitizer reported a data race during this case (report text is in the worker log)";
+#endif
+#ifdef VERIF_HAVE_TSAN
+  tsan_at_prev_end = tsan_reports().load(); prev_text = r.current_text;
 #endif
   if (r.case_alarm_s) watchdog_disarm();
   r.in_case = false;
@@ -315,14 +332,6 @@ inline std::string execute_case(const Scenario &scn) {
     s.samples.push_back((info.nontrivial ? "#nt\n" : "#plain\n") + t);
   }
   return err;
-}
-
-inline std::string save_failure(const std::string &text, const std::string &msg) {
-  auto &r = rt();
-  char name[512];
-  snprintf(name, sizeof name, "%s/fail-%s-%016llx.txt", r.replay_dir.c_str(), r.sub->name, (unsigned long long)fnv1a(text));
-  write_file(name, "# " + std::string(r.sub->name) + ": " + [&]{ std::string m = msg; for (auto &c : m) if (c == '\n') c = ' '; return m; }() + "\n" + text);
-  return name;
 }
 
 struct Registrar { Registrar(SubDef *d) { registry().push_back(d); } };
